@@ -53,6 +53,15 @@ void __vf_mutex_lock(void* m)
     acquisitions++;
     __CPROVER_assert(!in_call || acquisitions == 1, "K3c single critical section per public call");
 }
+_Bool nondet_bool(void);
+/* try_lock may fail: another thread may hold the mutex, and the standard allows spurious failure */
+_Bool __vf_mutex_try_lock(void* m)
+{
+    if (lock_held || !nondet_bool())
+        return 0;
+    __vf_mutex_lock(m);
+    return 1;
+}
 void __vf_mutex_unlock(void* m)
 {
     __CPROVER_assert(lock_held, "K3c unlock while held");
